@@ -347,3 +347,76 @@ M('c06-decode-order', 'C06', SEARCH, "                    (str(first_predecessor
 M('c06-decode-tt', 'C06', SEARCH, "    (0, 1, 0, 0): LT,\n    (0, 1, 0, 1): RIFF,", "    (0, 1, 0, 0): RIFF,\n    (0, 1, 0, 1): LT,", 'C06')
 M('c06-twin-rename-abc', 'C06', SEARCH, "                for a, b, c in itertools.product(range(2), repeat=3):\n                    for t in range(1 << self._boolean_function.input_size):\n                        if self._is_dont_cares_input(t):\n                            continue\n                        self._cnf.append(\n                            [\n                                -self._predecessors_variable(\n                                    gate, first_pred, second_pred\n                                ),\n                                (-1 if a else 1) * self._gate_value_variable(gate, t),\n                                (-1 if b else 1)\n                                * self._gate_value_variable(first_pred, t),\n                                (-1 if c else 1)\n                                * self._gate_value_variable(second_pred, t),\n                                (1 if a else -1) * self._gate_type_variable(gate, b, c),",
   "                for va, vb, vc in itertools.product(range(2), repeat=3):\n                    for t in range(1 << self._boolean_function.input_size):\n                        if self._is_dont_cares_input(t):\n                            continue\n                        self._cnf.append(\n                            [\n                                (-1 if vb else 1)\n                                * self._gate_value_variable(first_pred, t),\n                                -self._predecessors_variable(\n                                    gate, first_pred, second_pred\n                                ),\n                                (-1 if va else 1) * self._gate_value_variable(gate, t),\n                                (-1 if vc else 1)\n                                * self._gate_value_variable(second_pred, t),\n                                (1 if va else -1) * self._gate_type_variable(gate, vb, vc),", None)
+
+# ---------------------------------------------------------------- C07
+SUMF = 'cirbo/synthesis/generation/arithmetics/summation.py'
+M('c07-gadget-sum3', 'C07', SUMF, "    g3 = add_gate_from_tt(circuit, g1, g2, '0111')\n    g4 = add_gate_from_tt(circuit, g1, x3, '0110')", "    g3 = add_gate_from_tt(circuit, g1, g2, '0110')\n    g4 = add_gate_from_tt(circuit, g1, x3, '0110')", 'C07.GADGET')
+M('c07-gadget-mdfa-swap', 'C07', SUMF, "    g8 = add_gate_from_tt(circuit, g2, g7, '0110')\n    return list([g6, g4, g8])\n\n\n# an MDFA block with z=0", "    g8 = add_gate_from_tt(circuit, g2, g7, '0110')\n    return list([g6, g8, g4])\n\n\n# an MDFA block with z=0", 'C07.GADGET')
+M('c07-gadget-sum2-aig', 'C07', SUMF, "    g3 = add_gate_from_tt(circuit, g1, g2, '0010')\n    return list([g3, g2])", "    g3 = add_gate_from_tt(circuit, g1, g2, '0100')\n    return list([g3, g2])", 'C07.GADGET')
+M('c07-gadget-stockmeyer', 'C07', SUMF, "    g2 = add_gate_from_tt(circuit, x2, x23, '0010')", "    g2 = add_gate_from_tt(circuit, x23, x2, '0010')", 'C07.GADGET')
+M('c07-ts-back', 'C07', SUMF, "    if isinstance(basis, str):\n        basis = GenerationBasis(basis.upper())\n\n    res = []\n\n    single = SortedList(list(input_labels_with_pow))", "    res = []\n\n    single = SortedList(list(input_labels_with_pow))", 'C07.BASIS-TS')
+M('c07-ts-no-upper', 'C07', SUMF, "    if isinstance(basis, str):\n        _basis = GenerationBasis(basis.upper())\n    else:\n        _basis = basis", "    _basis = basis", 'C07.BASIS-TS')
+M('c07-reach-aig-branch', 'C07', SUMF, "                now_level_gate, next_level_gate = add_sum3_aig(circuit, [x, y, z])\n                for _ in range(3):\n                    now_solo.pop()\n                now_solo.append(now_level_gate)\n                single.add((now_level + 1, next_level_gate))\n\n            if len(now_solo) == 2:\n                x, y = now_solo[-1], now_solo[-2]\n                now_level_gate, next_level_gate = add_sum2_aig(circuit, [x, y])",
+  "                now_level_gate, next_level_gate = add_sum3_aig(circuit, [x, y, z])\n                for _ in range(3):\n                    now_solo.pop()\n                now_solo.append(now_level_gate)\n                single.add((now_level + 1, next_level_gate))\n\n            if len(now_solo) == 2:\n                x, y = now_solo[-1], now_solo[-2]\n                now_level_gate, next_level_gate = add_sum2(circuit, [x, y])", 'C07.BASIS-REACH')
+M('c07-reach-pow2', 'C07', SUMF, "        out.append(add_sum_n_bits(circuit, input_labels[0:2], basis=basis))", "        out.append(add_sum2(circuit, input_labels[0:2]))", 'C07.BASIS-REACH')
+M('c07-reach-aig-gadget', 'C07', SUMF, "    g4 = add_gate_from_tt(circuit, g3, x3, '0111')\n    g5 = add_gate_from_tt(circuit, g3, x3, '0001')\n    g6 = add_gate_from_tt(circuit, g4, g5, '0010')", "    g6 = add_gate_from_tt(circuit, g3, x3, '0110')\n    g5 = add_gate_from_tt(circuit, g3, x3, '0001')", 'C07.BASIS-REACH')
+M('c07-addonly-private', 'C07', SUMF, "    [x1, x2] = input_labels\n    g1 = add_gate_from_tt(circuit, x1, x2, '0110')\n    g2 = add_gate_from_tt(circuit, x1, x2, '0001')", "    [x1, x2] = input_labels\n    g1 = add_gate_from_tt(circuit, x1, x2, '0110')\n    g2 = x1 + '_and_' + x2\n    circuit._gates[g2] = gate.Gate(g2, gate.AND, (x1, x2))", 'C07.ADD-ONLY')
+M('c07-addonly-remove', 'C07', SUMF, "        res.append(now[0])\n        now = next\n    return reverse_if_big_endian(res, big_endian)", "        res.append(now[0])\n        now = next\n    for label in list(circuit.gates):\n        if not circuit.get_gate_users(label) and label not in res and label not in circuit.outputs:\n            circuit.remove_gate(label)\n    return reverse_if_big_endian(res, big_endian)", 'C07.ADD-ONLY')
+M('c07-args-reverse-inplace', 'C07', SUMF, "    input_labels_a = list(input_labels_a)\n    input_labels_b = list(input_labels_b)\n    n = len(input_labels_a)\n    m = len(input_labels_b)\n    if big_endian:\n        input_labels_a.reverse()", "    input_labels_b = list(input_labels_b)\n    n = len(input_labels_a)\n    m = len(input_labels_b)\n    if big_endian:\n        input_labels_a.reverse()", 'C07.ARGS')
+M('c07-args-pop', 'C07', SUMF, "    now = list(input_labels)\n    res = []\n    while len(now) > 0:\n        next = []\n        while len(now) > 2:\n            x, y = add_sum3_aig", "    now = input_labels\n    res = []\n    while len(now) > 0:\n        next = []\n        while len(now) > 2:\n            x, y = add_sum3_aig", 'C07.ARGS')
+M('c07-endian-return', 'C07', SUMF, "    d[n] = [d[n - 1][1]]\n    return reverse_if_big_endian([d[i][0] for i in range(n + 1)], big_endian)", "    d[n] = [d[n - 1][1]]\n    return [d[i][0] for i in range(n + 1)]", 'C07.ENDIAN')
+M('c07-endian-shift-early', 'C07', SUMF, "        for i in range(m):\n            d[i + shift] = [input_labels_b[i]]\n        return reverse_if_big_endian([i[0] for i in d], big_endian)", "        for i in range(m):\n            d[i + shift] = [input_labels_b[i]]\n        return [i[0] for i in d]", 'C07.ENDIAN')
+M('c07-endian-one-operand', 'C07', SUMF, "    if big_endian:\n        input_labels_a.reverse()\n        input_labels_b.reverse()\n\n    if n < m:", "    if big_endian:\n        input_labels_a.reverse()\n\n    if n < m:", 'C07.ENDIAN')
+M('c07-placeholder-back', 'C07', SUMF, "            for i in range(n, shift):\n                d[i] = [zero]", "            for i in range(n, shift - n):\n                d[i] = [zero]", 'C07.PLACEHOLDER')
+M('c07-placeholder-last', 'C07', SUMF, "    d[n] = [d[n - 1][1]]\n    return reverse_if_big_endian([d[i][0] for i in range(n + 1)], big_endian)", "    return reverse_if_big_endian([d[i][0] for i in range(n + 1)], big_endian)", 'C07.PLACEHOLDER')
+M('c07-twin-slice-copy', 'C07', SUMF, "    now = list(input_labels)\n    if big_endian:\n        now.reverse()\n    res = []", "    now = [*input_labels]\n    if big_endian:\n        now.reverse()\n    res = []", None)
+M('c07-twin-rename-gates', 'C07', SUMF, "    g1 = add_gate_from_tt(circuit, x1, x2, '0110')\n    g2 = add_gate_from_tt(circuit, x1, x2, '0001')\n    return list([g1, g2])", "    s_ = add_gate_from_tt(circuit, x1, x2, '0110')\n    c_ = add_gate_from_tt(circuit, x1, x2, '0001')\n    return [s_, c_]", None)
+
+# ---------------------------------------------------------------- C08
+MULF = 'cirbo/synthesis/generation/arithmetics/multiplication.py'
+SQF = 'cirbo/synthesis/generation/arithmetics/square.py'
+M('c08-reg-missing', 'C08', MULF, "    MulMode.WALLACE: add_mul_wallace,\n", "", 'C08.REG')
+M('c08-reg-signature', 'C08', SQF, "def add_square_pow2_m1(\n    circuit: Circuit, input_labels: tp.Iterable[gate.Label], *, big_endian: bool = False\n)", "def add_square_pow2_m1(\n    circuit: Circuit, input_labels: tp.Iterable[gate.Label], *, big_endian: bool = True\n)", 'C08.REG')
+M('c08-endian-n1', 'C08', MULF, "    if n == 1:\n        return reverse_if_big_endian([c[i][0] for i in range(m)], big_endian)\n    if m == 1:\n        return reverse_if_big_endian(c[0], big_endian)\n\n    out = [[[PLACEHOLDER_STR]]", "    if n == 1:\n        return [c[i][0] for i in range(m)]\n    if m == 1:\n        return reverse_if_big_endian(c[0], big_endian)\n\n    out = [[[PLACEHOLDER_STR]]", 'C08.ENDIAN')
+M('c08-endian-double', 'C08', MULF, "    res = add_sum_two_numbers_with_shift(circuit, 1, c[0], c[1])\n    for i in range(2, m):", "    res = add_sum_two_numbers_with_shift(circuit, 1, c[0], c[1], big_endian=big_endian)\n    for i in range(2, m):", 'C08.ENDIAN')
+M('c08-endian-square', 'C08', SQF, "    final_res = final_res[: 2 * n]\n    return reverse_if_big_endian(final_res, big_endian)", "    final_res = final_res[: 2 * n]\n    return final_res", 'C08.ENDIAN')
+M('c08-args-inplace', 'C08', SQF, "    input_labels = list(input_labels)\n    n = len(input_labels)\n    if big_endian:\n        input_labels.reverse()\n\n    if n == 1:", "    n = len(input_labels)\n    if big_endian:\n        input_labels.reverse()\n\n    if n == 1:", 'C08.ARGS')
+M('c08-args-pad', 'C08', MULF, "    input_labels_a = list(input_labels_a)\n    input_labels_b = list(input_labels_b)\n    if big_endian:\n        input_labels_a.reverse()\n        input_labels_b.reverse()\n    out_size = len(input_labels_a) + len(input_labels_b)\n    if len(input_labels_a) == 1 or len(input_labels_b) == 1:\n        out_size -= 1\n\n    n = len(input_labels_a)\n    if n < len(input_labels_b):\n        input_labels_a, input_labels_b = input_labels_b, input_labels_a\n        n = len(input_labels_a)\n    while n != len(input_labels_b):\n        input_labels_b.append(\n            add_gate_from_tt(circuit, input_labels_a[0], input_labels_a[0], '0110')\n        )\n\n    if n < 20 and n != 18:\n        return reverse_if_big_endian(\n            add_mul_pow2_m1",
+  "    input_labels_a = list(input_labels_a)\n    if big_endian:\n        input_labels_a.reverse()\n        input_labels_b = list(reversed(input_labels_b))\n    out_size = len(input_labels_a) + len(input_labels_b)\n    if len(input_labels_a) == 1 or len(input_labels_b) == 1:\n        out_size -= 1\n\n    n = len(input_labels_a)\n    if n < len(input_labels_b):\n        input_labels_a, input_labels_b = input_labels_b, input_labels_a\n        n = len(input_labels_a)\n    while n != len(input_labels_b):\n        input_labels_b.append(\n            add_gate_from_tt(circuit, input_labels_a[0], input_labels_a[0], '0110')\n        )\n\n    if n < 20 and n != 18:\n        return reverse_if_big_endian(\n            add_mul_pow2_m1", 'C08.ARGS')
+M('c08-addonly-setout', 'C08', MULF, "    out = add_sum_n_weighted_bits(circuit, powers_with_labels)\n    return reverse_if_big_endian([i[1] for i in out], big_endian)", "    out = add_sum_n_weighted_bits(circuit, powers_with_labels)\n    circuit.into_bench()\n    return reverse_if_big_endian([i[1] for i in out], big_endian)", 'C08.ADD-ONLY')
+M('c08-placeholder-alter', 'C08', MULF, "    c = [[PLACEHOLDER_STR] * n for _ in range(m)]\n    for i in range(m):\n        for j in range(n):\n            c[i][j] = add_gate_from_tt(\n                circuit, input_labels_a[j], input_labels_b[i], '0001'\n            )\n\n    if m == 1:\n        return reverse_if_big_endian(c[0], big_endian)", "    c = [[PLACEHOLDER_STR] * n for _ in range(m)]\n    for i in range(m):\n        for j in range(1, n):\n            c[i][j] = add_gate_from_tt(\n                circuit, input_labels_a[j], input_labels_b[i], '0001'\n            )\n\n    if m == 1:\n        return reverse_if_big_endian(c[0], big_endian)", 'C08.PLACEHOLDER')
+M('c08-twin-kwarg', 'C08', MULF, "    if m == 1:\n        return reverse_if_big_endian(c[0], big_endian)\n\n    res = add_sum_two_numbers_with_shift(circuit, 1, c[0], c[1])", "    if m == 1:\n        row0 = c[0]\n        return reverse_if_big_endian(row0, big_endian)\n\n    res = add_sum_two_numbers_with_shift(circuit, 1, c[0], c[1])", None)
+
+# ---------------------------------------------------------------- C09
+SUBF = 'cirbo/synthesis/generation/arithmetics/subtraction.py'
+M('c09-gadget-sub2', 'C09', SUBF, "    g2 = add_gate_from_tt(circuit, x1, x2, '0100')\n\n    return list([g1, g2])", "    g2 = add_gate_from_tt(circuit, x1, x2, '0010')\n\n    return list([g1, g2])", 'C09.GADGET')
+M('c09-gadget-sub3', 'C09', SUBF, "    x7 = add_gate_from_tt(circuit, x0, x5, '0110')\n    return list([x6, x7])", "    x7 = add_gate_from_tt(circuit, x0, x5, '0110')\n    return list([x7, x6])", 'C09.GADGET')
+M('c09-gadget-ite', 'C09', GENG, "    circuit.add_gate(Gate(tmp[2], gate.AND, (tmp[1], else_label)))", "    circuit.add_gate(Gate(tmp[2], gate.AND, (tmp[1], then_label)))", 'C09.GADGET')
+M('c09-gadget-pairwise-index', 'C09', GENG, "            if_labels[i],\n            then_labels[i],\n            else_labels[i],", "            if_labels[i],\n            then_labels[i],\n            else_labels[n - 1 - i],", 'C09.GADGET')
+M('c09-outguard-xor', 'C09', GENG, "        circuit.add_gate(Gate(result_labels[i], gate.XOR, (x_labels[i], y_labels[i])))\n        if add_outputs:\n            circuit.mark_as_output(result_labels[i])", "        circuit.add_gate(Gate(result_labels[i], gate.XOR, (x_labels[i], y_labels[i])))\n        circuit.mark_as_output(result_labels[i])", 'C09')
+M('c09-outguard-plus-one', 'C09', GENG, "    if add_outputs:\n        for result_label in result_labels:\n            circuit.mark_as_output(result_label)\n    return result_labels", "    for result_label in result_labels:\n        circuit.mark_as_output(result_label)\n    return result_labels", 'C09.OUT-GUARD')
+M('c09-outguard-forward', 'C09', GENG, "            result_label=result_labels[i],\n            add_outputs=add_outputs,", "            result_label=result_labels[i],\n            add_outputs=True,", 'C09')
+M('c09-hostin-back', 'C09', GENG, "    if add_outputs:\n        for result_label in result_labels:\n            circuit.mark_as_output(result_label)\n    return result_labels", "    circuit.order_inputs(input_labels)\n    if add_outputs:\n        for result_label in result_labels:\n            circuit.mark_as_output(result_label)\n    return result_labels", 'C09.HOST-IN')
+M('c09-addonly-rename', 'C09', 'cirbo/synthesis/generation/arithmetics/equality.py', "    last_label = generate_random_label(circuit)\n    if len(gates_for_and) == 1:\n        return gates_for_and[0]", "    last_label = generate_random_label(circuit)\n    if len(gates_for_and) == 1:\n        circuit.rename_gate(gates_for_and[0], last_label)\n        return last_label", 'C09.ADD-ONLY')
+M('c09-args-div', 'C09', 'cirbo/synthesis/generation/arithmetics/div_mod.py', "    input_labels_a = list(input_labels_a)\n    input_labels_b = list(input_labels_b)\n    if big_endian:", "    input_labels_b = list(input_labels_b)\n    if big_endian:", 'C09.ARGS')
+M('c09-args-compare-pad', 'C09', SUBF, "    input_labels_a = list(input_labels_a)\n    input_labels_b = list(input_labels_b)\n\n    always_false = add_gate_from_tt(", "    input_labels_a = list(input_labels_a)\n\n    always_false = add_gate_from_tt(", 'C09.ARGS')
+M('c09-endian-sub', 'C09', SUBF, "            res[i], bal[i] = add_sub2(circuit, [input_labels_a[i], bal[i - 1]])\n\n    return reverse_if_big_endian(res, big_endian)", "            res[i], bal[i] = add_sub2(circuit, [input_labels_a[i], bal[i - 1]])\n\n    return res", 'C09.ENDIAN')
+M('c09-endian-div', 'C09', 'cirbo/synthesis/generation/arithmetics/div_mod.py', "    if big_endian:\n        result.reverse()\n        now.reverse()\n\n    return result, now", "    if big_endian:\n        result.reverse()\n\n    return result, now", 'C09.ENDIAN')
+M('c09-endian-sqrt', 'C09', 'cirbo/synthesis/generation/arithmetics/sqrt.py', "    return reverse_if_big_endian(c[:half], big_endian)", "    return c[:half]", 'C09.ENDIAN')
+M('c09-placeholder-sub', 'C09', SUBF, "    for i in range(1, n):\n        if i < m:\n            res[i], bal[i] = add_sub3(", "    for i in range(1, n - 1):\n        if i < m:\n            res[i], bal[i] = add_sub3(", 'C09.PLACEHOLDER')
+M('c09-twin-guard-var', 'C09', GENG, "    for i in range(n):\n        circuit.add_gate(Gate(result_labels[i], gate.XOR, (x_labels[i], y_labels[i])))\n        if add_outputs:\n            circuit.mark_as_output(result_labels[i])\n    return result_labels", "    for i in range(n):\n        circuit.add_gate(Gate(result_labels[i], gate.XOR, (x_labels[i], y_labels[i])))\n    if add_outputs:\n        for r_ in result_labels:\n            circuit.mark_as_output(r_)\n    return result_labels", None)
+
+# ---------------------------------------------------------------- C04
+M('c04-sem-gt', 'C04', SUBC, "return self.max_pattern - ((self.max_pattern - operands[0]) | operands[1])", "return self.max_pattern - (operands[0] | (self.max_pattern - operands[1]))", 'C04.SEM')
+M('c04-sem-nary', 'C04', SUBC, "            return functools.reduce(operator.or_, operands)\n        elif oper_type == 'NOR':", "            return operands[0] | operands[1]\n        elif oper_type == 'NOR':", 'C04.SEM')
+M('c04-sem-else', 'C04', SUBC, "        else:\n            raise UnsupportedOperationError()", "        else:\n            return operands[0]", 'C04.SEM')
+M('c04-pol-second', 'C04', SUBC, "                new_gate = output_labels_mapping[negation_gate]\n\n                for user in new_subcircuit.get_gate_users(new_gate):\n                    if new_subcircuit.get_gate(user).gate_type.name == 'NOT':\n                        output_labels_mapping[output] = user\n                        new_subcircuit.mark_as_output(user)\n                        break",
+  "                new_gate = output_labels_mapping[negation_gate]\n                output_labels_mapping[output] = negation_gate", 'C04.POL')
+M('c04-snap-late', 'C04', SUBC, "    initial_circuit: Circuit = copy.deepcopy(circuit)\n    subcircuits: list[_Subcircuit] = _get_subcircuits(\n        circuit, cuts, cut_nodes, max_subcircuit_size, cut_size\n    )\n    subcircuits = _eval_dont_cares(circuit, subcircuits)",
+  "    subcircuits: list[_Subcircuit] = _get_subcircuits(\n        circuit, cuts, cut_nodes, max_subcircuit_size, cut_size\n    )\n    circuit.order_outputs([])\n    initial_circuit: Circuit = copy.deepcopy(circuit)\n    subcircuits = _eval_dont_cares(circuit, subcircuits)", 'C04.SNAP')
+M('c04-snap-shallow', 'C04', SUBC, "    initial_circuit: Circuit = copy.deepcopy(circuit)", "    initial_circuit: Circuit = circuit", 'C04.SNAP')
+M('c04-validation-inverted', 'C04', SUBC, "        if is_circuit_satisfiable(miter_circuit).answer:\n            raise FailedValidationError()", "        if not is_circuit_satisfiable(miter_circuit).answer:\n            raise FailedValidationError()", 'C04.SNAP')
+M('c04-size-same', 'C04', SUBC, "                TruthTableModel(outputs_tt),\n                size - 1,", "                TruthTableModel(outputs_tt),\n                size,", 'C04.SIZE')
+M('c04-size-basis', 'C04', SUBC, "                size - 1,\n                basis=_basis,", "                size - 1,", 'C04.SIZE')
+M('c04-size-all-outputs', 'C04', SUBC, "            if subcircuit.outputs[i] in filtered_outputs\n        ]", "            if subcircuit.outputs[i] in subcircuit.outputs\n        ]", 'C04.SIZE')
+M('c04-twin-rename', 'C04', SUBC, "    initial_circuit: Circuit = copy.deepcopy(circuit)", "    initial_circuit = copy.deepcopy(circuit)", None)
